@@ -96,6 +96,28 @@ def gen_cases(ctx, quick):
     for b in HAND_SCHEMAS + seeds["type"][:20]:
         cases.append(("schemaT", b"@t", b))
         cases.append(("schemaT", b'{"a": @t}', b))
+    # every rule name with values of every JSON kind and degenerate strings, on every kind of example
+    RULES = ["min", "max", "exclusiveMinimum", "exclusiveMaximum", "minLength", "maxLength", "regex", "minItems", "maxItems", "additionalProperties", "nullable", "const", "optional",
+             "precision", "type", "enum", "or", "allOf", "bogus"]
+    VALS = ['""', '" "', '"@"', '"@ "', '"#"', 'null', '[]', '{}', '[""]', '[{}]', '-1', '1.5', '0', '99999999999999999999', '"x"', 'true', '"true"', '"@t"', '["@t", ""]', '{"type": ""}']
+    EXS = ['"abc"', "5", "5.5", "true", "null", "[\n  1\n]", "{\n  \"k\": 1\n}", "[]", "{}"]
+    for r_ in RULES:
+        for v_ in VALS:
+            for ex_ in EXS:
+                head, _, rest = ex_.partition("\n")
+                text = head + " // {%s: %s}" % (r_, v_) + ("\n" + rest if rest else "")
+                cases.append(("schema", text.encode(), None))
+    # user types that refer to themselves or to each other, in value and in key position
+    for root in (b"@t", b'{"a": @t}', b"{\n  @t: 1\n}", b"[@t]", b'{} // {additionalProperties: "@t"}', b'1 // {type: "@t"}', b'{ // {allOf: "@t"}\n}'):
+        for ty in (b"@t", b"@t | @t", b"@t | @u", b'"k" // {type: "@t"}', b'{ // {allOf: "@t"}\n}', b"[@t]", b'{"x": @t}', b"{\n  @t: 1\n}"):
+            cases.append(("schemaT", root, ty))
+    # a type that inherits (allOf) from a longer type with a defect somewhere inside: the error lies in the BASE type's text
+    longp = [b'{\n  "aaaaaaaaaaaaaaaaaaaaaaaaaaaaaaaaaaaaaaaa": 1,\n  "x": 1 // {min: 5}\n}', b'{\n  "pppppppppppppppppppppppp": "s", // {minLength: 9}\n  "q": 2\n}',
+             b'{\n  "k": 1,\n  "deep": {\n    "inner": [1, 2] // {minItems: 5}\n  }\n}', b'{\n  "ok": 1\n}', b'{\n  "t": @missing\n}']
+    for pt in longp:
+        for dt in (b'{ // {allOf: "@p"}\n}', b'{ // {allOf: "@p"}\n  "own": 2\n}', b'{ // {allOf: ["@p"]}\n  "o": true // {optional: true}\n}'):
+            for rt in (b"@d", b'{"k": @d}', b"[@d]", b'{ // {allOf: "@d"}\n  "r": 1\n}'):
+                cases.append(("schemaTT", rt, dt, pt))
     # truncation at every offset
     tr_s = S if not quick else rng.sample(S, min(len(S), 40)) + HAND_SCHEMAS
     for b in tr_s:
@@ -172,7 +194,8 @@ def run(ctx):
                     t = l.split()
                     cases.append((t[0], bytes.fromhex(t[1]) if t[1] != "-" else b"", (bytes.fromhex(t[2]) if t[2] != "-" else b"") if len(t) > 2 else None))
     cases += gen_cases(ctx, quick)
-    lines = ["%s %s%s" % (k, hexs(s), (" " + hexs(d)) if d is not None else "") for k, s, d in cases]
+    cases = [c if len(c) == 4 else c + (None,) for c in cases]
+    lines = ["%s %s%s%s" % (k, hexs(s), (" " + hexs(d)) if d is not None else "", (" " + hexs(t)) if t is not None else "") for k, s, d, t in cases]
     # dedupe, keep order
     seen, ul, uc = set(), [], []
     for l, c in zip(lines, cases):
@@ -180,12 +203,8 @@ def run(ctx):
             seen.add(l)
             ul.append(l)
             uc.append(c)
-    try:
-        outs = vc.impl_parallel(["fuzzapi"], ul, shards=16, timeout=1500)
-    except RuntimeError as e:
-        # a hang or crash of the harness process itself: find the culprit by bisection over shards
-        ctx.report("harness process died or hung while running the library: %s" % str(e)[:300], "fuzz-crash", {"error": str(e)[:3000]}, no_input=True)
-        return
+    # an input that kills or hangs the process (stack overflow, fatal error) is isolated by bisection and counts as a panic of the call
+    outs = vc.impl_isolating(["fuzzapi"], ul, 1, shards=16, timeout=900, crash_value="Process:PANIC(the process died or hung: fatal error / stack overflow)")
     ctx.evaluations += len(ul)
     hist = {}
     triage = {}
